@@ -12,6 +12,7 @@ import EdzedProofs.Interval
 import EdzedProofs.IntervalText
 import EdzedProofs.IntervalTables
 import EdzedModel.Gen.Constants
+import EdzedModel.Gen.Translated
 
 namespace Edzed.Interval
 
@@ -396,3 +397,19 @@ example : contains .date [([12, 10], [1, 15])] [12, 31] = true ∧
     contains .date [([12, 10], [1, 15])] [1, 16] = false := by decide
 
 end Edzed.Interval
+
+/-! ### tie to the source by translation
+
+`Gen.Tr.cmpOpen/cmpClosed/cmpNoWrap` are regenerated on every run by tools/py2lean.py from the Python text of
+`_Interval._cmp_open`, `_Interval._cmp_closed` and `DateTimeInterval._cmp_open`. -/
+namespace Edzed.TrTie
+
+/-- the membership functions the theorems above talk about ARE the translated source functions
+    (with tuple comparison for `<` and `<=`) -/
+theorem translated_membership_is_model :
+    (∀ lo x hi, Gen.Tr.cmpOpen Interval.lt Interval.le lo x hi = Interval.cmpOpen lo x hi) ∧
+    (∀ lo x hi, Gen.Tr.cmpClosed Interval.lt Interval.le lo x hi = Interval.cmpClosed lo x hi) ∧
+    (∀ lo x hi, Gen.Tr.cmpNoWrap Interval.lt Interval.le lo x hi = Interval.cmpNoWrap lo x hi) :=
+  ⟨fun _ _ _ => rfl, fun _ _ _ => rfl, fun _ _ _ => rfl⟩
+
+end Edzed.TrTie
